@@ -11,9 +11,8 @@ CONSTANTS
   SyncHttpClientIds = FALSE
   Record = FALSE
   Defect_NoArmOnSync = FALSE
-  Defect_TakeoverKeepsOrigin = FALSE
+  Defect_TakeoverKeepsOrigin = TRUE
   Defect_ClientSetBeforeOwner = FALSE
 VIEW StateView
-INVARIANTS CountsMatch HealthyCountsMatch PerpetualMatches IndexedOnce ClientSetSound ClientSetComplete ArmedHealthy ArmedUnhealthy OwnedSupervised
-PROPERTIES NeverExpireWhileBeating NeverExpireGrpcOrPersistent ExpiredAfterSweep OwnedExpiredAfterSweep
+PROPERTIES OwnedExpiredAfterSweep
 CHECK_DEADLOCK FALSE
